@@ -78,7 +78,9 @@ Examples:
 func init() {
 	saveCmd.Flags().StringSliceP("keywords", "k", nil, "Keywords for the command (comma-separated)")
 	saveCmd.Flags().StringP("category", "c", "", "Category/niche for the command")
-	saveCmd.Flags().StringSliceP("platforms", "p", nil, "Supported platforms (comma-separated)")
+	// no shorthand: -p is the persistent --platform filter, and redefining it made cobra panic
+	// ("unable to redefine 'p' shorthand") whenever `wtf save` was run
+	saveCmd.Flags().StringSlice("platforms", nil, "Supported platforms (comma-separated)")
 	saveCmd.Flags().BoolP("pipeline", "", false, "Mark as a pipeline command")
 }
 
